@@ -33,7 +33,18 @@ impl Tier {
 
 /// Which arithmetic build this process is (the `checked` profile turns on
 /// debug-assertions together with overflow-checks, for mila and harness alike).
+static BUILD_OVERRIDE: std::sync::OnceLock<&'static str> = std::sync::OnceLock::new();
+
+/// A binary linked against a differently configured mila (e.g. the `verif-hooks` feature)
+/// names its build before calling `run_main`.
+pub fn set_build_name(name: &'static str) {
+    let _ = BUILD_OVERRIDE.set(name);
+}
+
 pub fn build_name() -> &'static str {
+    if let Some(n) = BUILD_OVERRIDE.get() {
+        return n;
+    }
     if cfg!(debug_assertions) {
         "checked"
     } else {
@@ -49,6 +60,8 @@ pub struct Ctx {
     pub root: PathBuf,
     pub exe: PathBuf,
     pub checked_bin: Option<PathBuf>,
+    /// twin binary linked against mila built with the `verif-hooks` feature (owned hash order)
+    pub hooked_bin: Option<PathBuf>,
     pub start: Instant,
     pub args: Vec<String>,
 }
@@ -223,6 +236,7 @@ pub fn run_main(def: PropDef) -> ! {
         root: root.clone(),
         exe: std::env::current_exe().expect("current_exe"),
         checked_bin: arg_value(&args, "--checked-bin").map(PathBuf::from),
+        hooked_bin: arg_value(&args, "--hooked-bin").map(PathBuf::from),
         start: Instant::now(),
         args: args.clone(),
     };
@@ -252,7 +266,12 @@ pub fn run_main(def: PropDef) -> ! {
         });
         let want_build = v.get("build").and_then(|b| b.as_str()).unwrap_or("unchecked");
         if want_build != ctx.build {
-            if let (Some(cb), "checked") = (&ctx.checked_bin, want_build) {
+            let twin = match want_build {
+                "checked" => ctx.checked_bin.clone(),
+                "hooked" => ctx.hooked_bin.clone(),
+                _ => None,
+            };
+            if let Some(cb) = &twin {
                 let st = std::process::Command::new(cb)
                     .args(["--replay", &path])
                     .env("VERIF_ROOT", &root)
@@ -325,6 +344,37 @@ pub fn run_main(def: PropDef) -> ! {
         }
     }
 
+    // Start the hooked twin (mila built with the verif-hooks feature), when the check has one.
+    let mut hooked_child = None;
+    let hooked_partial = root.join("target").join("partial").join(format!(
+        "{}.hooked.{}.json",
+        def.id,
+        std::process::id()
+    ));
+    if partial.is_none() && ctx.build == "unchecked" {
+        if let Some(hb) = &ctx.hooked_bin {
+            if !hb.exists() {
+                eprintln!("MACHINERY: hooked binary {} is missing", hb.display());
+                std::process::exit(2);
+            }
+            let _ = std::fs::create_dir_all(hooked_partial.parent().unwrap());
+            let _ = std::fs::remove_file(&hooked_partial);
+            match std::process::Command::new(hb)
+                .args(["--tier", tier.name(), "--partial"])
+                .arg(&hooked_partial)
+                .env("VERIF_ROOT", &root)
+                .env("VERIF_SEED", seed.to_string())
+                .spawn()
+            {
+                Ok(c) => hooked_child = Some(c),
+                Err(e) => {
+                    eprintln!("MACHINERY: cannot spawn hooked build {}: {}", hb.display(), e);
+                    std::process::exit(2);
+                }
+            }
+        }
+    }
+
     // Silence the default panic message: panics of the subject are caught and reported
     // by the harness; the location is captured through util::catch.
     crate::util::install_quiet_panic_hook();
@@ -388,6 +438,24 @@ pub fn run_main(def: PropDef) -> ! {
             }
         }
         let _ = std::fs::remove_file(&partial_path);
+    }
+
+    if let Some(mut c) = hooked_child {
+        let st = c.wait().expect("wait hooked child");
+        match std::fs::read_to_string(&hooked_partial)
+            .ok()
+            .and_then(|t| serde_json::from_str::<Outcome>(&t).ok())
+        {
+            Some(o) => outcomes.push(o),
+            None => {
+                eprintln!(
+                    "MACHINERY: hooked build of {} produced no result (status {:?})",
+                    def.id, st
+                );
+                std::process::exit(2);
+            }
+        }
+        let _ = std::fs::remove_file(&hooked_partial);
     }
 
     finish(&ctx, &def, outcomes)
